@@ -180,6 +180,7 @@ func rewriteFile(p *packages.Package, f *ast.File, rel string, opt Options) (edi
 	info := p.TypesInfo
 	fset := p.Fset
 	ord := 0
+	clockSeen := false
 	add := func(pos token.Pos, text string) {
 		ord++
 		edits = append(edits, edit{off: fset.Position(pos).Offset, text: text, ord: ord})
@@ -252,6 +253,27 @@ func rewriteFile(p *packages.Package, f *ast.File, rel string, opt Options) (edi
 			if opt.Order && x.Sel.Name == "Range" && isNamed(info.TypeOf(x.X), "sync", "Map") {
 				if s, ok := info.Selections[x]; ok && s.Kind() == types.MethodVal {
 					wrap(x, "SyncMapRange", "syncmap-range", "any")
+				}
+			}
+			if opt.Order {
+				// the clock seam: time.Now/Since/Until/Sleep read the simulator's clock
+				if id, ok := x.X.(*ast.Ident); ok {
+					if pn, ok := info.Uses[id].(*types.PkgName); ok && pn.Imported().Path() == "time" {
+						switch x.Sel.Name {
+						case "Now", "Since", "Until", "Sleep":
+							ord++
+							edits = append(edits, edit{off: fset.Position(id.Pos()).Offset, text: "__simrt /*", ord: ord})
+							ord++
+							edits = append(edits, edit{off: fset.Position(id.End()).Offset, text: "*/", ord: ord})
+							sites = append(sites, Site{ID: siteID(id.Pos()) + "." + x.Sel.Name, Kind: "clock"})
+							if !clockSeen {
+								ord++
+								edits = append(edits, edit{off: fset.Position(f.End()).Offset, text: "\nvar _ " + id.Name + ".Duration\n", ord: ord})
+							}
+							clockSeen = true
+							needRT = true
+						}
+					}
 				}
 			}
 			if opt.Sync && inflector {
